@@ -180,3 +180,174 @@ def scheme_order(p):
         if not all(r > order - 0.35 for r in rates):
             failures.append(dict(helper=fn.__name__, kw=kw, expected_order=order, observed_order=rates))
     return dict(cases=cases, failures=failures, samples=samples, bound="3 schemes + 5 analytic helpers x step counts 8,16,32 over 4 h in a time-dependent rotation; order tolerance 0.35")
+
+
+# ---------------------------------------------------------------- whole-step bounded checks
+
+
+class ArrayGrid:
+    """A grid with the BaseGrid interface over given arrays (used where no NetCDF file is needed)."""
+
+    def __init__(self, M, H=None, dx=None, dy=None, i0=1, j0=1):
+        self.M = np.asarray(M, int)
+        self.jmax, self.imax = self.M.shape
+        self.i0, self.j0 = i0, j0
+        self.H = np.full(self.M.shape, 50.0) if H is None else np.asarray(H, float)
+        self.dx = np.full(self.M.shape, 1000.0) if dx is None else np.asarray(dx, float)
+        self.dy = np.full(self.M.shape, 1000.0) if dy is None else np.asarray(dy, float)
+        self.xmin, self.xmax = float(i0), float(i0 + self.imax - 1)
+        self.ymin, self.ymax = float(j0), float(j0 + self.jmax - 1)
+
+    def _ij(self, X, Y):
+        return Y.round().astype(int) - self.j0, X.round().astype(int) - self.i0
+
+    def metric(self, X, Y):
+        J, I = self._ij(X, Y)
+        return self.dx[J, I], self.dy[J, I]
+
+    def depth(self, X, Y):
+        J, I = self._ij(X, Y)
+        return self.H[J, I]
+
+    def ingrid(self, X, Y):
+        return (self.xmin + 0.5 < X) & (X < self.xmax - 0.5) & (self.ymin + 0.5 < Y) & (Y < self.ymax - 0.5)
+
+    def atsea(self, X, Y):
+        J, I = self._ij(X, Y)
+        return self.M[J, I] > 0
+
+
+def _real_grid(M, H, pm, pn, d):
+    """The real ROMS Grid on a synthetic file carrying the given mask/depth/metric."""
+    from ladim.ROMS import Grid
+    from native.synth import make_roms_file
+
+    jm, im = np.asarray(M).shape
+    make_roms_file(d / "grid.nc", imax0=im, jmax0=jm, kmax=3, mask=M, h=H, pm=pm, pn=pn, grid_only=True)
+    return Grid(d / "grid.nc")
+
+
+def tracker_step_bounded(p):
+    """Run-time contract of one tracking step (C09, C15, C01.6) on the real Tracker + real ROMS Grid over
+    random coastlines (islands, one-cell channels), strong flow, all schemes, diffusion on/off."""
+    from ladim.state import State
+    from ladim.tracker import Tracker
+    from native.synth import Scratch
+
+    tier = p.get("tier", "quick")
+    rng = np.random.default_rng(p.get("seed", 0) + 17)
+    nscen = 24 if tier == "quick" else 200
+    cases, failures, samples = 0, [], []
+    with Scratch() as d:
+        for sc in range(nscen):
+            jm, im = int(rng.integers(6, 12)), int(rng.integers(6, 12))
+            M = (rng.random((jm, im)) > 0.25).astype(float)
+            if sc % 3 == 0:  # one-cell channel
+                M[:, :] = 0
+                M[jm // 2, :] = 1
+                M[:, im // 2] = 1
+            H = rng.uniform(5, 200, (jm, im))
+            pm, pn = 1.0 / rng.uniform(400, 1200, (jm, im)), 1.0 / rng.uniform(400, 1200, (jm, im))
+            grid = _real_grid(M, H, pm, pn, d)
+            sea = np.argwhere(M[2:-2, 2:-2] > 0) + 2
+            if len(sea) == 0:
+                continue
+            for sch in ("", "EF", "RK2", "RK4"):
+                for diff, vdiff, vadv in ((0.0, 0.0, False), (50.0, 1e-4, True)):
+                    n = 12
+                    pick = sea[rng.integers(0, len(sea), n)]
+                    X0 = pick[:, 1] + rng.uniform(-0.49, 0.49, n)
+                    Y0 = pick[:, 0] + rng.uniform(-0.49, 0.49, n)
+                    ok = grid.ingrid(X0, Y0)
+                    X0, Y0 = X0[ok], Y0[ok]
+                    n = len(X0)
+                    if n == 0:
+                        continue
+                    state = State()
+                    H0 = grid.depth(X0, Y0)
+                    state.append(X=X0, Y=Y0, Z=rng.uniform(0, 1, n) * H0)
+                    state["active"] = rng.random(n) > 0.2
+                    speed = rng.choice([0.1, 2.0, 20.0])
+                    ang = rng.uniform(0, 2 * np.pi)
+
+                    def vel(x, y, f, speed=speed, ang=ang):
+                        return speed * np.cos(ang + 0.3 * x) * np.ones_like(x), speed * np.sin(ang + 0.2 * y) * np.ones_like(y)
+
+                    force = TableForce([], [], analytic=vel)
+                    force.variables = {"w": rng.uniform(-0.001, 0.001, n)}
+                    modules = dict(state=state, grid=grid, forcing=force, time=StubTimer(600))
+                    trk = Tracker(advection=sch, diffusion=diff, vertdiff=vdiff, vertical_advection=vadv, modules=modules)
+                    trk.rng = np.random.default_rng(int(rng.integers(1 << 30)))
+                    for _step in range(3):
+                        Xb, Yb, Zb = state.X.copy(), state.Y.copy(), state.Z.copy()
+                        ab, acb = state.alive.copy(), state.active.copy()
+                        hb = grid.depth(Xb, Yb)
+                        force.variables["w"] = rng.uniform(-0.001, 0.001, len(state))
+                        trk.update()
+                        cases += 1
+                        X, Y, Z = state.X, state.Y, state.Z
+                        f = None
+                        if np.any(state.alive & ~ab):
+                            f = "a dead particle became alive"
+                        elif not np.all(grid.ingrid(X, Y)):
+                            f = "particle outside the valid region after the step"
+                        elif not np.all(grid.atsea(X, Y)):
+                            f = "particle on land after the step"
+                        elif not np.all(np.isfinite(X) & np.isfinite(Y)):
+                            f = "non-finite position"
+                        elif np.any((~acb) & ((X != Xb) | (Y != Yb))):
+                            f = "inactive particle moved"
+                        elif (vdiff > 0 or vadv) and np.any(((Z < -1e-9) | (Z > hb + 1e-9)) & (Zb >= 0) & (Zb <= hb)):
+                            f = "depth outside [0, h(start cell)]"
+                        elif not (vdiff > 0 or vadv) and np.any(Z != Zb):
+                            f = "depth changed with vertical switches off"
+                        if f:
+                            failures.append(dict(scenario=sc, scheme=sch, diffusion=diff, step=_step, what=f))
+                            break
+            if sc < 2:
+                samples.append(dict(scenario=sc, shape=[jm, im], sea_cells=int(M.sum())))
+    return dict(cases=cases, failures=failures[:10], samples=samples, bound=f"{nscen} random coastlines (6..11 cells, 1/3 one-cell channels) x 4 schemes x diffusion off/on x 3 steps, 12 particles")
+
+
+def diffusion_moments(p):
+    """Bounded: sample mean/variance of the real Tracker's random walk against 2*D*dt (5-sigma bands)."""
+    from ladim.state import State
+    from ladim.tracker import Tracker
+
+    tier = p.get("tier", "quick")
+    npart = 20000 if tier == "quick" else 200000
+    cases, failures, samples = 0, [], []
+    for D, Dz, dt, dx in ((1.0, 1e-3, 600, 800.0), (100.0, 1e-2, 60, 4000.0), (0.01, 1e-4, 3600, 160.0)):
+        for seed in range(2 if tier == "quick" else 6):
+            grid = ArrayGrid(np.ones((200, 200)), H=np.full((200, 200), 1e6), dx=np.full((200, 200), dx), dy=np.full((200, 200), 2 * dx))
+            state = State()
+            state.append(X=np.full(npart, 100.0), Y=np.full(npart, 100.0), Z=np.full(npart, 5e5))
+            force = TableForce([], [])
+            trk = Tracker(advection="", diffusion=D, vertdiff=Dz, modules=dict(state=state, grid=grid, forcing=force, time=StubTimer(dt)))
+            trk.rng = np.random.default_rng(1000 * seed + p.get("seed", 0))
+            nsteps = 5
+            for _ in range(nsteps):
+                trk.update()
+            cases += 1
+            t = nsteps * dt
+            for nm, arr, scale, var in (("x", state.X - 100.0, dx, 2 * D * t), ("y", state.Y - 100.0, 2 * dx, 2 * D * t), ("z", state.Z - 5e5, 1.0, 2 * Dz * t)):
+                m = float(np.mean(arr) * scale)
+                v = float(np.var(arr) * scale**2)
+                se_m = (var / npart) ** 0.5
+                se_v = var * (2.0 / npart) ** 0.5
+                if abs(m) > 5 * se_m or abs(v - var) > 5 * se_v:
+                    failures.append(dict(D=D, Dz=Dz, dt=dt, dx=dx, direction=nm, mean=m, variance=v, expected_variance=var))
+            c = float(np.corrcoef(state.X, state.Y)[0, 1])
+            if abs(c) > 5 / npart**0.5:
+                failures.append(dict(D=D, what="x/y displacements correlated", corr=c))
+            samples.append(dict(D=D, Dz=Dz, dt=dt, var_x_m2=float(np.var(state.X) * dx**2), expected=2 * D * t))
+    # determinism with zero coefficients
+    grid = ArrayGrid(np.ones((20, 20)))
+    state = State()
+    state.append(X=np.full(5, 10.0), Y=np.full(5, 10.0), Z=np.full(5, 5.0))
+    trk = Tracker(advection="", diffusion=0.0, vertdiff=0.0, modules=dict(state=state, grid=grid, forcing=TableForce([], []), time=StubTimer(600)))
+    trk.update()
+    cases += 1
+    if np.any(state.X != 10.0) or np.any(state.Z != 5.0):
+        failures.append(dict(what="movement with zero coefficients"))
+    return dict(cases=cases, failures=failures[:10], samples=samples[:3], bound=f"{npart} particles, 5 steps, 3 parameter sets, 5-sigma bands")
